@@ -165,7 +165,9 @@ Val(w) == [st |-> "ok", w |-> w]
 Bad(s) == [st |-> s, w |-> WZero]
 
 (* sdiv: TRUE = the specification (signed / and %); FALSE = the deliberately wrong variant
-   "unsigned division" (what the pinned wild computes; GNU ld must reject it: anti-vacuity). *)
+   "unsigned division" (what wild computed before the fix of expression_eval.rs; it exists only so
+   that the check can show that GNU ld refutes it - anti-vacuity - and can name the class `div-unsigned`
+   should that behaviour ever come back). *)
 BinVal(op, x, y, sdiv) ==
   CASE op = "+" -> Val(WAdd(x, y))
     [] op = "-" -> Val(WSub(x, y))
